@@ -321,6 +321,9 @@ class Evaluator:
                 return SBytes([Seg("enum", Lin(widths.pop()), mapping=dict(v.table), ref=Ref(path))])
         if isinstance(v, Unknown):
             return SBytes([Seg("raw", Lin.atom(("len", v.what)), ref=Ref(v.what))])
+        if isinstance(v, SView):
+            # the bytes of a window of a buffer: opaque content of known width
+            return SBytes([Seg("raw", v.hi - v.lo, ref=Ref(f"{v.src}[{v.lo!r}:{v.hi!r}]"))])
         raise Unsupported(f"{self.func.qual}:{getattr(node, 'lineno', 0)}: expected bytes, got {v!r} in {unparse(node)}")
 
     # ------------------------------------------------------------- expressions
@@ -528,7 +531,7 @@ class Evaluator:
                 return isinstance(x, SBytes) or (isinstance(x, DictMap) and bool(x.table) and all(isinstance(y, bytes) for y in x.table.values()))
 
             if _byteslike(a) or _byteslike(b):
-                if isinstance(a, (SBytes, TRef, DictMap, CallVal, BSlice, Unknown)) and isinstance(b, (SBytes, TRef, DictMap, CallVal, BSlice, Unknown)):
+                if isinstance(a, (SBytes, TRef, DictMap, CallVal, BSlice, Unknown, SView)) and isinstance(b, (SBytes, TRef, DictMap, CallVal, BSlice, Unknown, SView)):
                     return self.as_bytes(a, e.left) + self.as_bytes(b, e.right)
             if isinstance(a, list) and isinstance(b, list):
                 return a + b
@@ -730,6 +733,9 @@ class Evaluator:
         ok, v = self.fold(e) if not self._mentions_local(e, st) else (False, None)
         if ok:
             return self.const_to_value(v)
+        return Unknown(unparse(e))
+
+    def e_Lambda(self, e: ast.Lambda, st: State) -> t.Any:
         return Unknown(unparse(e))
 
     def e_ListComp(self, e: ast.ListComp, st: State) -> t.Any:
